@@ -25,6 +25,7 @@ EXPLANATION += (" Premises: C01, C05 and C02 (one execute per scheduled timestep
 EXPLANATION += (' Collector.records is appended only by functions whose documented root is a collect() method.')
 EXPLANATION += (' Whether the timestep is recorded is decided by the truth value of includeTimestep on every path.')
 EXPLANATION += (' Collector.execute calls collect() exactly once on every path.')
+EXPLANATION += (' Whether the composite result is merged is decided by `is None`.')
 ASSUMPTIONS = ["OS/file-system behaviour between open and close is not decided (crash-point part of the quantifier)",
                "write_count is a non-negative integer"]
 
@@ -196,6 +197,12 @@ def run(cx: Cx):
                         viol('R-NONE', 'composite-result-merged-iff-not-None', "a non-None composite result must be merged into the record", cx.where(col))
                 elif implies(p.cond, AIs(r, Const(None))) is None and upd:
                     viol('R-NONE', 'composite-result-merged-iff-not-None', "a None composite result is merged", cx.where(col))
+                elif implies(p.cond, AIs(r, Const(None))) is not None:
+                    # the path has not decided `is None` at all (`type(r) == dict`, a truth test): a result that is not None - a
+                    # Counter, a defaultdict, an empty mapping - is dropped on the other branch
+                    viol('R-NONE', 'composite-result-merged-iff-not-None',
+                         f"whether the composite result is merged is not decided by `is None` on a path [{p.cond!r}]: a composite result "
+                         f"that is not None (a dict subclass, an empty dict) is silently dropped", cx.where(col))
         # append guarded by non-emptiness
         nonempty = mk_cmp(App('len', (D,)), '>', Num(Fraction(0)))
         if apps:
